@@ -1,12 +1,118 @@
 (* C09 -- model of the 4x64-bit layout written by MoleculeIsomorphism._cython_compiled_structure and
-   QueryIsomorphism._cython_compiled_query (chython/algorithms/isomorphism.py) and of the mask tests of
-   chython/algorithms/_isomorphism.pyx.  Definitions only.  Python ints are Z; `1 << k` is Z.shiftl 1 k (the code
-   only shifts by non-negative amounts inside the representable range, which the theorems state as hypotheses). *)
+   QueryIsomorphism._cython_compiled_query (chython/algorithms/isomorphism.py), of the mask tests of
+   chython/algorithms/_isomorphism.pyx, and of the reference comparison methods they replace
+   (QueryElement/AnyElement/ListElement/AnyMetal.__eq__ of chython/periodictable/base/query.py and QueryBond.__eq__ of
+   chython/containers/bonds.py).  Definitions only.  Python ints are Z; `1 << k` is Z.shiftl 1 k (the code only shifts by
+   non-negative amounts inside the representable range, which the theorems state as hypotheses).
+   The file is self-contained on purpose (it does not import Model.Query of C08): the reference side is tied to the real
+   __eq__ methods by C09's own exhaustive correspondence. *)
 From Coq Require Import ZArith List Bool Lia.
-From Model Require Import PyBase PeriodicTable Query.
+From Model Require Import PyBase PeriodicTable.
 From Gen Require Import Elements.
 Import ListNotations.
 Open Scope Z_scope.
+
+(* ------------------------------------------------------------------------------------------------------------ *)
+(* 0. the reference side: molecule atoms / bonds as the comparison methods see them, query atoms / bonds, __eq__   *)
+
+Record latom := mkLA {
+  la_num : Z;               (* atomic_number *)
+  la_iso : option Z;        (* isotope *)
+  la_chg : Z;               (* charge *)
+  la_rad : bool;            (* is_radical *)
+  la_nb : Z;                (* neighbors *)
+  la_hyb : Z;               (* hybridization 1..4 *)
+  la_h : option Z;          (* implicit_hydrogens (None = valence error / unknown) *)
+  la_het : Z;               (* heteroatoms *)
+  la_rings : list Z         (* ring_sizes: a Python set; order irrelevant *)
+}.
+Record lbond := mkLB { lb_ord : Z; lb_ring : bool }.
+
+(* tuple-valued fields are Python tuples: "empty tuple = unconstrained"; x_rings = (0,) means "not in a ring" *)
+Record qx := mkQX {
+  x_chg : Z; x_rad : bool;
+  x_nb : list Z; x_hyb : list Z; x_h : list Z; x_het : list Z; x_rings : list Z
+}.
+Inductive qatom :=
+| QElem (num : Z) (iso : option Z) (x : qx)     (* QueryElement subclass QueryXx *)
+| QAny (x : qx)                                 (* AnyElement *)
+| QList (nums : list Z) (x : qx)                (* ListElement: atomic_numbers *)
+| QMetal (nb hyb : list Z).                     (* AnyMetal *)
+Record qbond := mkQB { qb_ord : list Z; qb_ring : option bool }.
+
+Definition nonempty {A} (l : list A) : bool := match l with [] => false | _ => true end.
+Definition disjoint_z (a b : list Z) : bool := forallb (fun x => negb (zmem x b)) a.
+Definition opt_mem (o : option Z) (l : list Z) : bool := match o with Some v => zmem v l | None => false end.
+(* Python truthiness of an Optional[int] *)
+Definition iso_truthy (o : option Z) : bool := match o with Some i => negb (i =? 0) | None => false end.
+
+(*  if self.ring_sizes:
+        if self.ring_sizes[0]:
+            if other.ring_sizes.isdisjoint(self.ring_sizes): return False
+        elif other.ring_sizes: return False                                          *)
+Definition ring_step (x : qx) (a : latom) : bool :=
+  match x_rings x with
+  | [] => true
+  | r0 :: _ => if negb (r0 =? 0) then negb (disjoint_z (la_rings a) (x_rings x)) else negb (nonempty (la_rings a))
+  end.
+
+(* the common tail of QueryElement / AnyElement / ListElement.__eq__, from the neighbors test on *)
+Definition match_tail (x : qx) (a : latom) : bool :=
+  if nonempty (x_nb x) && negb (zmem (la_nb a) (x_nb x)) then false
+  else if nonempty (x_hyb x) && negb (zmem (la_hyb a) (x_hyb x)) then false
+  else if negb (ring_step x a) then false
+  else if nonempty (x_h x) && negb (opt_mem (la_h a) (x_h x)) then false
+  else if nonempty (x_het x) && negb (zmem (la_het a) (x_het x)) then false
+  else true.
+
+(* QueryElement.__eq__ *)
+Definition match_q (num : Z) (iso : option Z) (x : qx) (a : latom) : bool :=
+  if negb (num =? la_num a) then false
+  else if negb (x_chg x =? la_chg a) then false
+  else if negb (Bool.eqb (x_rad x) (la_rad a)) then false
+  else if iso_truthy iso && negb (option_eqb Z.eqb iso (la_iso a)) then false
+  else match_tail x a.
+(* AnyElement.__eq__ *)
+Definition match_any (x : qx) (a : latom) : bool :=
+  if negb (x_chg x =? la_chg a) then false
+  else if negb (Bool.eqb (x_rad x) (la_rad a)) then false
+  else match_tail x a.
+(* ListElement.__eq__ *)
+Definition match_list (nums : list Z) (x : qx) (a : latom) : bool :=
+  if negb (zmem (la_num a) nums) then false
+  else if negb (x_chg x =? la_chg a) then false
+  else if negb (Bool.eqb (x_rad x) (la_rad a)) then false
+  else match_tail x a.
+(* AnyMetal.__eq__: other.is_forming_single_bonds or isinstance(other, GroupXVIII), read from the generated tables *)
+Definition non_metal (num : Z) : bool :=
+  match from_number num with
+  | Some e => e_single e || (e_group e =? 18)
+  | None => false
+  end.
+Definition match_metal (nb hyb : list Z) (a : latom) : bool :=
+  if non_metal (la_num a) then false
+  else if nonempty nb && negb (zmem (la_nb a) nb) then false
+  else if nonempty hyb && negb (zmem (la_hyb a) hyb) then false
+  else true.
+
+Definition match_atom (q : qatom) (a : latom) : bool :=
+  match q with
+  | QElem num iso x => match_q num iso x a
+  | QAny x => match_any x a
+  | QList nums x => match_list nums x a
+  | QMetal nb hyb => match_metal nb hyb a
+  end.
+
+(* QueryBond.__eq__(Bond):  if self.in_ring is not None and self.in_ring != other.in_ring: False
+                            return other.order in self.order *)
+Definition qbond_match (q : qbond) (b : lbond) : bool :=
+  match qb_ring q with
+  | Some r => if negb (Bool.eqb r (lb_ring b)) then false else zmem (lb_ord b) (qb_ord q)
+  | None => zmem (lb_ord b) (qb_ord q)
+  end.
+
+(* ------------------------------------------------------------------------------------------------------------ *)
+(* 1. the encoders                                                                                                *)
 
 Definition bit (k : Z) : Z := Z.shiftl 1 k.
 Definition mdl_of (num : Z) : Z := match from_number num with Some e => e_mdl e | None => 0 end.
@@ -147,7 +253,7 @@ Definition atom_ok (a : latom) : bool :=
 
 Definition qx_ok (x : qx) : bool :=
   in_range (-4) 4 (x_chg x) && all_in 0 14 (x_nb x) && all_in 1 4 (x_hyb x) && all_in 0 4 (x_h x) &&
-  all_in 0 14 (x_het x) && negb (x_rings_set x) &&
+  all_in 0 14 (x_het x) &&
   (match x_rings x with
    | [] => true
    | r0 :: r => if r0 =? 0 then match r with [] => true | _ => false end else all_in 3 65 (x_rings x)
@@ -163,3 +269,195 @@ Definition query_ok (q : qatom) : bool :=
 
 Definition bond_ok (b : lbond) : bool := zmem (lb_ord b) [1; 2; 3; 4; 8].
 Definition qbond_ok (q : qbond) : bool := forallb (fun o => zmem o [1; 2; 3; 4; 8]) (qb_ord q).
+
+(* hypotheses on the element part: 1..116 on both sides (117 and 118 share the bit of 116: documented); for AnyMetal
+   the atom is not Rn (finding anymetal-rn) *)
+Definition elem_hyp (q : qatom) (an : Z) : Prop :=
+  1 <= an <= 116 /\
+  match q with
+  | QElem n _ _ => 1 <= n <= 116
+  | QAny _ => True
+  | QList nums _ => all_in 1 116 nums = true
+  | QMetal _ _ => an <> 86
+  end.
+
+(* ------------------------------------------------------------------------------------------------------------ *)
+(* 4. the two searches.
+   Both _get_mapping (isomorphism.py) and get_mapping (_isomorphism.pyx) are the same explicit-stack depth-first search;
+   they differ in the first-atom test, in the candidate test and in the data they read.  `dfs` is that common loop:
+     stack   = list of (molecule atom, depth), head = top;   path = matched molecule atoms, position = query depth;
+     the C `matched[]` flags / the Python `reversed_mapping` keys are represented by membership in `path`
+     (the loops set the flag when an atom is appended to path and clear it when path is truncated);
+     the Python `mapping` dict is  query atom at depth i -> path[i].
+   Molecule atoms are identified by their position in dict order (the encoder's `mapping[n] = i`); the harness converts
+   atom numbers to positions when it prints the reference-side terms, and positions back to numbers through the
+   `mapping` fields when it compares the results. *)
+
+Section Dfs.
+  Variable E : Type.                         (* a neighbour entry of the adjacency that is iterated *)
+  Variable idx : E -> Z.                     (* the neighbour it leads to *)
+  Variable natoms : Z.
+  Variable first_ok : Z -> bool.
+  Variable nbrs : Z -> list E.
+  Variable last : nat.                       (* size / q_decrement = number of query atoms - 1 *)
+  Variable back : nat -> Z.                  (* depth of the `back` atom of the query atom at depth d *)
+  Variable cand_ok : nat -> list Z -> Z -> E -> bool.   (* front depth, path, atom whose neighbours are scanned, entry *)
+
+  (* `for n in range(atoms_count): if ...: stack[stack++] = (n, 0)` *)
+  Definition init_stack : list (Z * nat) := rev (map (fun n => (n, O)) (filter first_ok (zrange 0 natoms))).
+
+  Fixpoint dfs (fuel : nat) (stack : list (Z * nat)) (path : list Z) (acc : list (list Z)) : option (list (list Z)) :=
+    match fuel with
+    | O => None
+    | S f =>
+        match stack with
+        | [] => Some (rev acc)
+        | (n, depth) :: st =>
+            if Nat.eqb depth last then
+              (* yield: query atom i -> path[i] for i < depth, query atom depth -> n *)
+              dfs f st path ((firstn depth path ++ [n]) :: acc)
+            else
+              (* `if path_size != depth: truncate`; append n *)
+              let path' := firstn depth path ++ [n] in
+              let front := S depth in
+              let base := if negb (back front =? Z.of_nat depth) then znth path' (back front) 0 else n in
+              let cands := filter (cand_ok front path' base) (nbrs base) in
+              dfs f (rev (map (fun e => (idx e, front)) cands) ++ st) path' acc
+        end
+    end.
+
+  Definition search (fuel : nat) : option (list (list Z)) := dfs fuel init_stack [] [].
+End Dfs.
+
+(* ---- 4a. the buffers of the accelerated path ---- *)
+Record m_atom_t := mkMA { ma_bits : bits4; ma_from : Z; ma_to : Z; ma_mapping : Z }.
+Record bond_t := mkBT { bt_bond : Z; bt_index : Z }.
+Record molecule_t := mkMolT { mo_atoms : list m_atom_t; mo_bonds : list bond_t }.
+Record q_atom_t := mkQA { qa_mask : bits4; qa_back : Z; qa_closure : Z; qa_from : Z; qa_to : Z; qa_mapping : Z }.
+Record query_t := mkQueryT { qu_atoms : list q_atom_t; qu_bonds : list bond_t }.
+
+Definition zlen {A} (l : list A) : Z := Z.of_nat (List.length l).
+Definition slice {A} (from to : Z) (l : list A) : list A := firstn (Z.to_nat (to - from)) (skipn (Z.to_nat from) l).
+Definition b4zero := mkB4 0 0 0 0.
+Definition m_atom (mo : molecule_t) (i : Z) : m_atom_t := znth (mo_atoms mo) i (mkMA b4zero 0 0 0).
+Definition q_atom (qu : query_t) (i : Z) : q_atom_t := znth (qu_atoms qu) i (mkQA b4zero 0 0 0 0 0).
+Definition m_bonds_of (mo : molecule_t) (i : Z) : list bond_t :=
+  slice (ma_from (m_atom mo i)) (ma_to (m_atom mo i)) (mo_bonds mo).
+
+(* `scope[n] and q_atom.mask1 & n_atom.bits1 and ...` *)
+Definition mask_first (qu : query_t) (mo : molecule_t) (scope : list bool) (n : Z) : bool :=
+  znth scope n false && mask_match_first (qa_mask (q_atom qu 0)) (ma_bits (m_atom mo n)).
+
+(* the `closures` scratch array after the fill loop, read at x:
+   `if j_bond.index != n and matched[j_bond.index]: closures[j_bond.index] = j_bond.bond`, otherwise still 0 *)
+Definition closures_at (mb : list bond_t) (path : list Z) (base x : Z) : Z :=
+  fold_left (fun acc j => if negb (bt_index j =? base) && zmem (bt_index j) path && (bt_index j =? x)
+                          then bt_bond j else acc) mb 0.
+
+Definition mask_cand (qu : query_t) (mo : molecule_t) (scope : list bool)
+                     (front : nat) (path : list Z) (base : Z) (i_bond : bond_t) : bool :=
+  let qa := q_atom qu (Z.of_nat front) in
+  let m := bt_index i_bond in
+  let mb := m_bonds_of mo m in
+  znth scope m false && negb (zmem m path) &&
+  mask_match_next (qa_mask qa) (bt_bond i_bond) (ma_bits (m_atom mo m)) &&
+  (if negb (qa_closure qa =? 0) then
+     (* closures_counter == q_atom.closure, then every query closure finds its bond *)
+     (zlen (filter (fun j => negb (bt_index j =? base) && zmem (bt_index j) path) mb) =? qa_closure qa) &&
+     forallb (fun jq => closure_ok (bt_bond jq) (closures_at mb path base (znth path (bt_index jq) 0)))
+             (slice (qa_from qa) (qa_to qa) (qu_bonds qu))
+   else
+     (* candidate atom should not have closures *)
+     negb (existsb (fun j => negb (bt_index j =? base) && zmem (bt_index j) path) mb)).
+
+Definition mask_search (qu : query_t) (mo : molecule_t) (scope : list bool) (fuel : nat) : option (list (list Z)) :=
+  search bond_t bt_index (zlen (mo_atoms mo)) (mask_first qu mo scope) (m_bonds_of mo)
+         (Nat.pred (List.length (qu_atoms qu))) (fun d => qa_back (q_atom qu (Z.of_nat d))) (mask_cand qu mo scope) fuel.
+
+(* `mapping[query.atoms[i].mapping] = molecule.atoms[path[i]].mapping` *)
+Definition mask_mapping (qu : query_t) (mo : molecule_t) (p : list Z) : list (Z * Z) :=
+  combine (map qa_mapping (qu_atoms qu)) (map (fun i => ma_mapping (m_atom mo i)) p).
+
+(* ---- 4b. the reference path ---- *)
+(* molecule atom: number, labelled atom, neighbour dict (POSITION of the neighbour, bond) in dict order *)
+Record ratom := mkRA { ra_num : Z; ra_atom : latom; ra_nbrs : list (Z * lbond) }.
+(* linear query entry (s_n, back, s_atom, s_bond) + query_closures[s_n]; back and closure partners as DEPTHS *)
+Record rqent := mkRQ { rq_num : Z; rq_back : Z; rq_atom : qatom; rq_bond : option qbond; rq_clos : list (Z * qbond) }.
+
+Definition r_atom (rm : list ratom) (i : Z) : ratom := znth rm i (mkRA 0 (mkLA 0 None 0 false 0 0 None 0 []) []).
+Definition rq_ent (rq : list rqent) (i : Z) : rqent := znth rq i (mkRQ 0 0 (QMetal [] []) None []).
+
+Definition ref_first (rq : list rqent) (rm : list ratom) (scope : list bool) (n : Z) : bool :=
+  znth scope n false && match_atom (rq_atom (rq_ent rq 0)) (ra_atom (r_atom rm n)).
+
+(*  if o_n in scope and o_n not in reversed_mapping and s_bond == o_bond:
+        if s_atom == o_atoms[o_n]:
+            o_closures = o_bonds[o_n].keys() & reversed_mapping.keys(); o_closures.discard(n)
+            if o_closures == {mapping[m] for m, _ in query_closures[s_n]}:
+                if all(bond == obon[mapping[m]] for m, bond in query_closures[s_n]): push                       *)
+Definition ref_cand (rq : list rqent) (rm : list ratom) (scope : list bool)
+                    (front : nat) (path : list Z) (base : Z) (e : Z * lbond) : bool :=
+  let q := rq_ent rq (Z.of_nat front) in
+  let o_n := fst e in
+  let obon := ra_nbrs (r_atom rm o_n) in
+  znth scope o_n false && negb (zmem o_n path) &&
+  (match rq_bond q with Some sb => qbond_match sb (snd e) | None => false end) &&
+  match_atom (rq_atom q) (ra_atom (r_atom rm o_n)) &&
+  same_keys_z (filter (fun k => zmem k path && negb (k =? base)) (map fst obon))
+              (map (fun mb => znth path (fst mb) 0) (rq_clos q)) &&
+  forallb (fun mb => match zget obon (znth path (fst mb) 0) with
+                     | Some ob => qbond_match (snd mb) ob
+                     | None => false
+                     end) (rq_clos q).
+
+Definition ref_search (rq : list rqent) (rm : list ratom) (scope : list bool) (fuel : nat) : option (list (list Z)) :=
+  search (Z * lbond) fst (zlen rm) (ref_first rq rm scope) (fun i => ra_nbrs (r_atom rm i))
+         (Nat.pred (List.length rq)) (fun d => rq_back (rq_ent rq (Z.of_nat d))) (ref_cand rq rm scope) fuel.
+
+Definition ref_mapping (rq : list rqent) (rm : list ratom) (p : list Z) : list (Z * Z) :=
+  combine (map rq_num rq) (map (fun i => ra_num (r_atom rm i)) p).
+
+(* ---- 4c. the encoders as a whole: buffers written by _cython_compiled_structure / _cython_compiled_query ---- *)
+Fixpoint from_to {A} (f : A -> Z) (l : list A) (start : Z) : list (Z * Z) :=
+  match l with
+  | [] => []
+  | a :: r => (start, start + f a) :: from_to f r (start + f a)
+  end.
+
+Definition enc_mol (rm : list ratom) : molecule_t :=
+  let bits := map (fun a => enc_atom (ra_atom a)) rm in
+  let ft := from_to (fun a => zlen (ra_nbrs a)) rm 0 in
+  mkMolT (map (fun abf => let '(a, b, (f, t)) := abf in mkMA b f t (ra_num a)) (combine (combine rm bits) ft))
+         (flat_map (fun a => map (fun e => mkBT (enc_bond (snd e) (w1 (znth bits (fst e) b4zero))) (fst e)) (ra_nbrs a)) rm).
+
+(* q_from / q_to: only atoms that have closures get a slice, the others keep (0, 0) *)
+Fixpoint q_from_to (l : list rqent) (start : Z) : list (Z * Z) :=
+  match l with
+  | [] => []
+  | e :: r => match rq_clos e with
+              | [] => (0, 0) :: q_from_to r start
+              | c => (start, start + zlen c) :: q_from_to r (start + zlen c)
+              end
+  end.
+
+Definition enc_query (rq : list rqent) : query_t :=
+  mkQueryT (map (fun eft => let '(e, (f, t)) := eft in
+                            mkQA (enc_qatom (rq_atom e) (rq_bond e)) (rq_back e) (zlen (rq_clos e)) f t (rq_num e))
+                (combine rq (q_from_to rq 0)))
+           (flat_map (fun e => map (fun mb => mkBT (enc_closure (snd mb)) (fst mb)) (rq_clos e)) rq).
+
+(* boolean equalities for the correspondence cases *)
+Definition b4_eqb (a b : bits4) : bool := (w1 a =? w1 b) && (w2 a =? w2 b) && (w3 a =? w3 b) && (w4 a =? w4 b).
+Definition ma_eqb (a b : m_atom_t) : bool :=
+  b4_eqb (ma_bits a) (ma_bits b) && (ma_from a =? ma_from b) && (ma_to a =? ma_to b) && (ma_mapping a =? ma_mapping b).
+Definition bt_eqb (a b : bond_t) : bool := (bt_bond a =? bt_bond b) && (bt_index a =? bt_index b).
+Definition mol_t_eqb (a b : molecule_t) : bool :=
+  list_eqb ma_eqb (mo_atoms a) (mo_atoms b) && list_eqb bt_eqb (mo_bonds a) (mo_bonds b).
+Definition qa_eqb (a b : q_atom_t) : bool :=
+  b4_eqb (qa_mask a) (qa_mask b) && (qa_back a =? qa_back b) && (qa_closure a =? qa_closure b) &&
+  (qa_from a =? qa_from b) && (qa_to a =? qa_to b) && (qa_mapping a =? qa_mapping b).
+Definition query_t_eqb (a b : query_t) : bool :=
+  list_eqb qa_eqb (qu_atoms a) (qu_atoms b) && list_eqb bt_eqb (qu_bonds a) (qu_bonds b).
+Definition pair_zz_eqb (a b : Z * Z) : bool := (fst a =? fst b) && (snd a =? snd b).
+Definition maps_eqb (a b : option (list (list (Z * Z)))) : bool :=
+  option_eqb (list_eqb (list_eqb pair_zz_eqb)) a b.
